@@ -32,6 +32,10 @@ def _density(x, mu=2.5, sigma=1.0):
     return np.exp(-0.5 * ((x - mu) / sigma) ** 2) / np.sqrt(2.0 * np.pi * sigma ** 2)
 
 
+def _custom_cost(a=1.0, b=2.0, c=0.5):
+    return (a - 1.5) ** 2 / 0.04 + (b - 0.5 * a) ** 2 / 0.09 + (c + 0.2) ** 2 + 0.3 * a * c
+
+
 def _scaled_density(x, mu=2.5, sigma=1.0, n=25.0):
     return n * np.exp(-0.5 * ((x - mu) / sigma) ** 2) / np.sqrt(2.0 * np.pi * sigma ** 2)
 
@@ -109,6 +113,16 @@ def build(obj_id):
         return GaussianMatrixParameterConstraint([0, 1], [2.0, 3.0], [[0.04, 0.01], [0.01, 0.09]])
     if obj_id == "k_matrix_rel_cor":
         return GaussianMatrixParameterConstraint([1, 0], [2.0, 3.0], [[1.0, 0.2], [0.2, 1.0]], matrix_type="cor", uncertainties=[0.1, 0.05], relative=True)
+    if obj_id.startswith("f_custom"):
+        from kafe2 import CustomFit
+        f = CustomFit(_custom_cost)
+        f.add_parameter_constraint("b", 0.6, 0.4)
+        f.limit_parameter("a", -4.0, 6.0)
+        if obj_id.endswith("fixedfit"):
+            f.fix_parameter("c", 0.3)
+        if obj_id.endswith("fit"):
+            f.do_fit()
+        return f
     if obj_id.startswith("f_"):
         _, ftype, variant = obj_id.split("_")
         f = fl.make_fit(ftype)
@@ -133,7 +147,8 @@ def build(obj_id):
 
 OBJECTS = ["c_indexed", "c_xy", "c_hist", "c_hist_manual", "c_hist_edges", "c_unbinned", "m_indexed", "m_xy", "m_hist", "m_hist_nodensity", "f_hist_nodensity",
            "k_simple", "k_simple_rel", "k_matrix", "k_matrix_rel_cor",
-           "f_xy_plain", "f_xy_fit", "f_xy_fixedfit", "f_xy_asym", "f_indexed_fixed", "f_indexed_fit", "f_hist_fit", "f_hist_plain", "f_unbinned_fit"]
+           "f_xy_plain", "f_xy_fit", "f_xy_fixedfit", "f_xy_asym", "f_indexed_fixed", "f_indexed_fit", "f_hist_fit", "f_hist_plain", "f_unbinned_fit",
+           "f_custom_plain", "f_custom_fit", "f_custom_fixedfit"]
 
 
 def family(obj_id):
@@ -194,6 +209,15 @@ def project(obj, obj_id):
         p["cost"] = float(obj.cost(pt))
     else:
         ftype = obj_id.split("_")[1]
+        if ftype == "custom":
+            p.update(parameter_names=list(obj.parameter_names), parameter_values=_arr(obj.parameter_values),
+                     fixed=sorted((k, float(v)) for k, v in obj._fitter.fixed_parameters.items()),
+                     limited=sorted((k, tuple(float(x) for x in v)) for k, v in obj._fitter.limited_parameters.items()),
+                     cost=float(obj.cost_function_value), did_fit=bool(obj.did_fit),
+                     constraint_cost=float(sum(c.cost(obj.parameter_values) for c in obj.parameter_constraints)),
+                     parameter_errors=_arr(obj.parameter_errors) if obj.did_fit else None,
+                     parameter_cov_mat=_arr(obj.parameter_cov_mat) if obj.did_fit else None)
+            return p
         p["data"] = _arr(obj.data)
         p["parameter_names"] = list(obj.parameter_names)
         p["parameter_values"] = _arr(obj.parameter_values)
